@@ -898,8 +898,11 @@ ParBSRMatrix* ParCSRMatrix::to_ParBSR(const int block_row_size, const int block_
             prev_row = block_row;
         }
     }
-    if (global_block_rows == global_block_cols && block_row_size == block_col_size)
+    if (global_block_rows == global_block_cols && block_row_size == block_col_size
+            && partition->first_local_row == partition->first_local_col
+            && partition->local_num_rows == partition->local_num_cols)
     {
+        // rows and columns are split alike: the block columns owned here are the block rows
         A->on_proc_column_map = A->get_local_row_map();
     }
     else
